@@ -27,6 +27,9 @@ func init() {
 		ID: "C08", Title: "BGZF output is spec-conformant, gzip-compatible, deterministic and EOF-marked", Level: "other",
 		Rules: append([]RuleDef{bgzfConst, bsize, fextra, hasEOF,
 			{Name: "OWN-WRITE-ARG", What: "Writer.Write only measures, reslices and copies from its argument; no slice of the caller's buffer is stored, sent or captured (added after a blind second seed round)", Floor: 1, Run: ruleWriteArgOwned},
+			{Name: "FLUSH-CUTS", What: "Writer.Flush answers nil without cutting a block only when the active block is empty: which writes start a member does not depend on the queue's length, hence not on wc or the destination's speed (added after ninth-round seed C08-i)", Floor: 1, Run: ruleFlushCuts},
+			{Name: "LATCH-ONE", What: "the error Writer.Close tests before it appends the EOF marker is the state setErr records (the same field, or Error()): the marker is written iff no write failed (added after ninth-round seed C08-j: the latch moved to an atomic.Value, Close still read the old field)", Floor: 1, Run: ruleLatchOne},
+			{Name: "FIELD-NEVER-SET", What: "every error field of package bgzf that is read is assigned a non-nil value somewhere: the latch Close consults before it writes the EOF marker is the one failures are recorded in (added after ninth-round seed C08-j)", Floor: 3, Run: ruleFieldNeverSet([]string{"bgzf"})},
 		}, writerRules("W4", "W5", "W6", "W8", "W9")...),
 		Explanation: "TAB-BGZF/TAB-FEXTRA/BIT-BSIZE: every member carries the BC subfield first, with BSIZE = length−1 written under a guard that rejects members of 64 KiB or more, payload bounded by the array type; W4: only the single emitter (and Close after it finished) writes to the underlying writer, each block by one copy of a complete member, so the stream is a concatenation of whole members independent of the number of compressors; W6: the marker is written once, only by Close, only if no error was latched, after the emitter finished; W9: nothing follows a failed block; PATH-HASEOF: HasEOF compares exactly the trailing 28 bytes.",
 		NotDecided:  "that compress/gzip emits RFC 1952 (trusted); the bytes.Index search for the BC prefix over the whole member (a ModTime of 42 43 02 00 would be matched first) – value-level.",
@@ -37,6 +40,7 @@ func init() {
 		Rules: append(writerRules("W1", "W2", "W3", "W4", "W5", "W6", "W9", "PATH-WAIT"),
 			bsize,
 			RuleDef{Name: "OWN-WRITE-ARG", What: "Writer.Write only measures, reslices and copies from its argument (shared with C01/C08; under C12 since sixth-round seed C12-h: blocks arrive whole and in order but hold bytes the caller wrote into its buffer later)", Floor: 1, Run: ruleWriteArgOwned},
+			RuleDef{Name: "FLUSH-CUTS", What: "Writer.Flush cuts the active block unless it is empty: data written before a Flush that returned nil is on its way (shared with C08)", Floor: 1, Run: ruleFlushCuts},
 			RuleDef{Name: "PATH-BAMCLOSE", What: "bam.Writer.Close closes the BGZF writer on every path – Flush alone does not wait and writes no EOF block (added after eighth-round seed C12-j)", Floor: 1, Run: rulePathBamClose},
 			RuleDef{Name: "PATH-BAMNEW", What: "bam.NewWriterLevel: writeHeader, Flush, Wait in this order on every path; writer returned only if Wait's error is nil", Floor: 1, Run: ruleBamNew}),
 		Explanation: "W1–W4: blocks reach the underlying writer whole, from one goroutine, in queue (= write) order for every number of compressors and completion order; W5 in the reading \"qwg.Done only after the block's bytes were handed to the underlying writer and it returned, and after a failure was latched\"; PATH-WAIT: Wait blocks on the pending-write group whenever no error is latched and then reports the latch – so Flush;Wait == nil implies every block queued before has been written; W9: after a failed block no later block is written (the delivered bytes stay a prefix); W6 the same for Close; PATH-BAMNEW the guarantee bam.NewWriter relies on.",
